@@ -214,9 +214,18 @@ def lookup(frames: list[Frame], name: str, visited: frozenset, mode: str = "nix"
 
 
 def lookup_set(frames, name, visited, mode="nix"):
-    res = lookup(frames, name, visited, mode)
+    """`name` may be a select path (`s1.lib`): the first segment is looked up, the others are
+    attributes of literal sets."""
+    base, *rest = name.split(".")
+    res = lookup(frames, base, visited, mode)
     if res[0] != "set":
-        raise Unbound(f"{name} is not a set")
+        raise Unbound(f"{base} is not a set")
+    for seg in rest:
+        _k, env_frames, env, _w = res
+        sub = env.bindings.get(seg)
+        if not isinstance(sub, SetExpr):
+            raise Unbound(f"{name} is not a set")
+        res = ("set", list(env_frames) + list(env.wrappers) + [_as_frame(env)], sub, (env.bindings, seg))
     return res
 
 
@@ -465,9 +474,11 @@ def _set_name(rng, local_sets, counter) -> str:
     return f"s{counter[0]}"
 
 
-def gen_setexpr(rng: random.Random, depth: int, set_names: list[str], counter: list[int]) -> SetExpr:
+def gen_setexpr(rng: random.Random, depth: int, set_names: list[str], counter: list[int],
+                select_env: bool = False, sel_envs_outer: list | None = None) -> SetExpr:
     wrappers: list[Frame] = []
     local_sets = list(set_names)
+    sel_envs = list(sel_envs_outer or [])
     nwrap = rng.choice([0, 1, 1, 2, 2, 3, 4] if depth == 0 else [0, 0, 0, 1, 1, 2])
     for _ in range(nwrap):
         kind = rng.choice(["let", "let", "let", "with"])
@@ -490,6 +501,10 @@ def gen_setexpr(rng: random.Random, depth: int, set_names: list[str], counter: l
             if sn:
                 inner = {n: (uid() if rng.random() < 0.8 else Ref(rng.choice(NAMES)))
                          for n in rng.sample(NAMES, rng.choice([1, 2, 3]))}
+                if select_env and rng.random() < 0.3:
+                    # a set inside the set, usable as `with sN.lib;`
+                    inner["lib"] = SetExpr([], False, {n: uid() for n in rng.sample(NAMES, rng.choice([1, 2]))})
+                    sel_envs.append(sn + ".lib")
                 b[sn] = SetExpr([], rng.random() < 0.2, inner)
                 if rng.random() < 0.5:
                     items = list(b.items())
@@ -498,7 +513,9 @@ def gen_setexpr(rng: random.Random, depth: int, set_names: list[str], counter: l
                 local_sets.append(sn)
             wrappers.append(Frame("let", b))
         else:
-            if local_sets and rng.random() < 0.45:
+            if sel_envs and rng.random() < 0.3:
+                wrappers.append(Frame("with", {}, env_name=rng.choice(sel_envs)))
+            elif local_sets and rng.random() < 0.45:
                 wrappers.append(Frame("with", {}, env_name=rng.choice(local_sets)))
             else:
                 env = {n: (uid() if rng.random() < 0.85 else Ref(rng.choice(NAMES)))
@@ -525,7 +542,8 @@ def gen_setexpr(rng: random.Random, depth: int, set_names: list[str], counter: l
     if depth < 3:
         for _ in range(rng.choice([0, 0, 1, 1, 2] if depth == 0 else [0, 0, 1])):
             counter[0] += 1
-            bindings[f"n{counter[0]}"] = gen_setexpr(rng, depth + 1, local_sets, counter)
+            bindings[f"n{counter[0]}"] = gen_setexpr(rng, depth + 1, local_sets, counter,
+                                                     select_env=select_env, sel_envs_outer=sel_envs)
     items = list(bindings.items())
     rng.shuffle(items)
     out = SetExpr(wrappers, rec, dict(items), inline=rng.random() < 0.3, dotted=rng.random() < 0.25)
@@ -575,7 +593,7 @@ def count_bindings(s: SetExpr) -> int:
 
 
 def generate(rng: random.Random, *, call: bool = False, alias: bool = False,
-             opaque: bool = False) -> Program:
+             opaque: bool = False, select_env: bool = False) -> Program:
     counter = [0]
     if call:
         outer: list[Frame] = []
@@ -623,7 +641,7 @@ def generate(rng: random.Random, *, call: bool = False, alias: bool = False,
         prog.n_bindings = count_bindings(root) + sum(len(f.bindings) for f in outer) + len(formals) + 5 \
             + (count_bindings(holder) if holder is not None else 0)
         return prog
-    root = gen_setexpr(rng, 0, [], counter)
+    root = gen_setexpr(rng, 0, [], counter, select_env=select_env)
     if opaque and root.wrappers:
         # a head that binds none of the names between the scopes and the set (function head,
         # assert): the scopes before it still enclose the set
